@@ -414,6 +414,11 @@ func C20(c *Ctx) {
 		c.R.Check(endOK, "C20-R3", r.name+": edge endpoints are node identifiers", c.pos(edgeCall), "the node's name / the branch target / the id returned by the node function", "an edge endpoint is not the identifier under which the node is declared")
 	}
 
+	c.R.Rule("C20-R5", "E7", "Analyze depends on the given spec only", 1)
+	c.R.Rule("C20-R6", "E3", "Mermaid renders every node exactly once", 1)
+	c.R.Rule("C20-R7", "E6", "rendering output files start empty", 0)
+	c20Extras(c, mer, ana, withHelpers)
+	c20OutputFiles(c)
 	// ---- R4 Analyze
 	loops := flow.Loops(ana)
 	type anchor struct {
